@@ -211,6 +211,16 @@ def inDomain (g : Graph) (x : Int) (sub : Graph) (anchors : List Nat) : Bool :=
   wf g && contiguous g && g.hasNode x && !g.hasEdge x x && wf sub && contiguous sub &&
     anchorsOk sub anchors && sub.multi == g.multi
 
+/-- ids are `0, 1, …, n-1` in ANY node order (what `relabel_graph` guarantees of a graph whose nodes were
+    inserted in an arbitrary order: `nx.relabel_nodes` keeps the node order, the ids become ranks) -/
+def contiguousAny (g : Graph) : Bool := sortAsc g.nodeIds == (List.range g.nodes.length).map Int.ofNat
+
+/-- the full domain of the property: as `inDomain`, but the ids `0..n-1` of the parent (and `0..m-1` of the
+    sub-pattern) may appear in any node order -/
+def inDomainAny (g : Graph) (x : Int) (sub : Graph) (anchors : List Nat) : Bool :=
+  wf g && contiguousAny g && g.hasNode x && !g.hasEdge x x && wf sub && contiguousAny sub &&
+    anchorsOk sub anchors && sub.multi == g.multi
+
 /-! ### executable specification (applied to implementation outputs by the driver) -/
 
 /-- adjacency mentions only nodes -/
